@@ -6,6 +6,7 @@ import DocsModel.Model.QuerySpec
 import DocsModel.Model.Postcard
 import DocsModel.Model.Heads
 import DocsModel.Model.FilterText
+import DocsModel.Model.Migrations
 /-!
 Line-protocol driver: one output line per input line. The Rust harness pipes the same operation
 lines it applied to the real crate and compares the two output streams.
@@ -287,6 +288,22 @@ def step (w : World) (line : String) : World × String :=
       let hist := ((w.imports.lookup sid).getD []).filter (·.1 == ns)
       (w, if hist.isEmpty then "none" else if hist.any (·.2 == 1) then "1" else "0")
     | _, _ => (w, "bad-op")
+  -- delete derived tables (as plain redb would) and open the database again
+  | ["tmigrate", sid, dl, dk] =>
+    match parseNat? sid, parseBool? dl, parseBool? dk with
+    | some sid, some dl, some dk =>
+      match w.getT sid with
+      | some t => (w.setT sid (Tables.reopen (Tables.dropDerived t dl dk)), "ok")
+      | none => (w, "no-store")
+    | _, _, _ => (w, "bad-op")
+  -- plain reopen: migrations run, and do nothing on an up-to-date database
+  | ["treopen", sid] =>
+    match parseNat? sid with
+    | some sid =>
+      match w.getT sid with
+      | some t => (w.setT sid (Tables.reopen t), "ok")
+      | none => (w, "no-store")
+    | none => (w, "bad-op")
   | ["tclean", sid, ns] =>
     match parseNat? sid, Bytes.ofHex ns with
     | some sid, some ns =>
